@@ -20,7 +20,13 @@ func shakeByte(kind int64, arr, ln, q *Term) *Term {
 	return App("shake", SInt, Num(kind), arr, ln, q)
 }
 
-func subBytes(mem, off, n *Term) *Term { return App("sub", SArr(SInt), mem, off, n) }
+func subBytes(mem, off, n *Term) *Term {
+	// sub(sub(M,o,n),0,n) = sub(M,o,n): the canonical string of a canonical string of the same length
+	if mem.Op == "sub" && len(mem.Args) == 3 && off.IsNum() && off.Num.Sign() == 0 && sameTerm(mem.Args[2], n) {
+		return mem
+	}
+	return App("sub", SArr(SInt), mem, off, n)
+}
 func catBytes(a, n, b, m *Term) *Term  { return App("cat", SArr(SInt), a, n, b, m) }
 
 // xofCall handles NewShake128/256, ShakeSum128/256 and the Write/Read methods; ok=false if not an XOF call.
